@@ -179,7 +179,8 @@ func (c *connection) stop() {
 // write协程自己产生的结果直接调用 不能再写入activeMsgCompleteChan 因为它的消费者就是write协程自己 写满了会把自己阻塞住
 func (c *connection) completeActive(record map[uint16]*ActiveMessage, msg *Message) {
 	seq := msg.ExtensionFields.PlatformSeq
-	if v, ok := record[seq]; ok {
+	// msg.active != v: 流水号回绕以后 这个流水号已经属于另一次下发 之前那次下发的超时结果不能算到它头上
+	if v, ok := record[seq]; ok && (msg.active == nil || msg.active == v) {
 		msg.ExtensionFields.PlatformData = v.ExtensionFields.Data
 		msg.ExtensionFields.PlatformCommand = v.Command
 		msg.ExtensionFields.ActiveSend = true
@@ -281,9 +282,16 @@ func (c *connection) onActiveEvent(activeMsg *ActiveMessage, record map[uint16]*
 		PlatformSeq: seq,
 		Data:        data,
 	}
+	if old, ok := record[seq]; ok && old != activeMsg {
+		// 流水号只有16位 同一个连接上再下发65536条报文以后 会用到一个还在等待应答的流水号
+		// 终端的应答已经分不清是给谁的 直接覆盖的话之前的调用方永远等不到结果(应答 超时 断开时的failPending都找不到它了) 先让它以超时结束
+		old.replyChan <- newErrMessage(errors.Join(ErrWriteDataOverTime,
+			fmt.Errorf("platform serial number [%d] is used again", seq)))
+	}
 	record[seq] = activeMsg
 	err := c.writeData(data)
 	replyMsg := newActiveMessage(seq, activeMsg.Command, data, err)
+	replyMsg.active = activeMsg
 	if v, ok := c.handles[activeMsg.Command]; ok {
 		replyMsg.Handler = v
 	}
